@@ -687,6 +687,25 @@ func lookupFaithfulRule(P *Program, R *Report, rule string, rows []lookupRow) {
 					genericSeen = true
 					continue
 				}
+				// a table of per-name functions: each entry is that name's answer
+				if tab := dispatchTable(P, v); tab != nil {
+					for tk, td := range tab {
+						want, has := row.byKey[tk]
+						if !has && row.generic != "" {
+							want, has = strings.ReplaceAll(row.generic, "arg#1", "\""+tk+"\""), true
+						}
+						if !has {
+							want = "nil"
+						}
+						if td != want {
+							ok = false
+							notes = append(notes, fmt.Sprintf("table entry %q -> %s (want %s)", tk, td, want))
+						} else {
+							answered[tk] = true
+						}
+					}
+					continue
+				}
 				if d != "nil" {
 					ok = false
 					notes = append(notes, "any name -> "+d)
@@ -717,4 +736,93 @@ func lookupFaithfulRule(P *Program, R *Report, rule string, rows []lookupRow) {
 		}
 		R.decide(rule, row.fn+":lookup", "the by-name lookup answers every name with that name's own value", ok, strings.Join(notes, "; "), P.Pos(fn.Pos()))
 	}
+}
+
+// dispatchTable: v is the result of calling a function looked up by the name parameter in a package-level map
+// literal (`if f, ok := table[name]; ok { return f(c) }`): for every key of the literal, what that entry's function
+// returns with its parameters bound to the call's arguments. nil if v is not of that form.
+func dispatchTable(P *Program, v ssa.Value) map[string]string {
+	c, ok := v.(*ssa.Call)
+	if !ok || c.Call.IsInvoke() || c.Call.StaticCallee() != nil {
+		return nil
+	}
+	fv := c.Call.Value
+	if ex, isEx := fv.(*ssa.Extract); isEx {
+		fv = ex.Tuple
+	}
+	lk, ok := fv.(*ssa.Lookup)
+	if !ok || desc(lk.Index) != "arg#1" {
+		return nil
+	}
+	ld, ok := lk.X.(*ssa.UnOp)
+	if !ok {
+		return nil
+	}
+	g, ok := ld.X.(*ssa.Global)
+	if !ok || g.Pkg == nil {
+		return nil
+	}
+	init := g.Pkg.Func("init")
+	if init == nil {
+		return nil
+	}
+	// the global is assigned once, in the package initialiser, a map literal
+	var mk *ssa.MakeMap
+	n := 0
+	for _, fn := range P.AllFuncs {
+		if fn.Blocks == nil {
+			continue
+		}
+		allInstrs(fn, func(i ssa.Instruction) {
+			if st, isSt := i.(*ssa.Store); isSt && st.Addr == ssa.Value(g) {
+				n++
+				if fn == init {
+					mk, _ = st.Val.(*ssa.MakeMap)
+				}
+			}
+		})
+	}
+	if n != 1 || mk == nil {
+		return nil
+	}
+	out := map[string]string{}
+	okAll := true
+	for _, r := range referrersOf(mk) {
+		switch u := r.(type) {
+		case *ssa.MapUpdate:
+			k, isC := u.Key.(*ssa.Const)
+			if !isC || k.Value == nil || u.Map != ssa.Value(mk) {
+				okAll = false
+				continue
+			}
+			key := strings.Trim(k.Value.ExactString(), "\"")
+			var fn *ssa.Function
+			switch f := u.Value.(type) {
+			case *ssa.Function:
+				fn = f
+			case *ssa.MakeClosure:
+				if len(f.Bindings) == 0 {
+					fn, _ = f.Fn.(*ssa.Function)
+				}
+			}
+			if fn == nil || fn.Blocks == nil || len(returnsOf(fn)) != 1 {
+				okAll = false
+				continue
+			}
+			bindCall(c, fn, func() {
+				rv := retValue(returnsOf(fn)[0], 0)
+				out[key] = desc(rv)
+				if isNilConst(rv) {
+					out[key] = "nil"
+				}
+			})
+		case *ssa.Store, *ssa.DebugRef:
+		default:
+			okAll = false
+		}
+	}
+	if !okAll || len(out) == 0 {
+		return nil
+	}
+	return out
 }
